@@ -1017,6 +1017,9 @@ func (x *fatRun) clusterBytes() int64 {
 	return 512
 }
 
+// fatOpHook, when set, is called before every operation of a FAT history (C14 injects clock jumps).
+var fatOpHook func(i int)
+
 // execFatHistory runs a FAT history and evaluates the clauses of property prop (C01, C08 or C03).
 // It returns the final disk as well (C14 compares images).
 func execFatHistory(t *core.Trace, prop string, repro bool) (*core.Result, *simdisk.Disk) {
@@ -1047,7 +1050,7 @@ func execFatHistory(t *core.Trace, prop string, repro bool) (*core.Result, *simd
 	}
 	d.FillNoise(start+size, tail, t.Seed^0xdef)
 	// stale bytes inside the range (a previous owner's data)
-	if t.I("stale") == 1 || (t.Seed>>7)&3 == 0 {
+	if t.I("stale") == 1 || (t.I("stale") == 0 && (t.Seed>>7)&3 == 0) {
 		n := size
 		if n > 4<<20 {
 			n = 4 << 20
@@ -1113,6 +1116,9 @@ func execFatHistory(t *core.Trace, prop string, repro bool) (*core.Result, *simd
 	for i, o := range t.Ops {
 		x.opIdx = i
 		x.trig, x.locus = o.K, "filesystem/fat12"
+		if fatOpHook != nil {
+			fatOpHook(i)
+		}
 		before := x.mutated
 		x.mutated = false
 		v := x.step(o)
